@@ -1236,6 +1236,16 @@ XalanTransformer::reset()
 
 
 
+#if defined(XALAN_C_VERIF_HOOKS)
+void
+XalanTransformer::verifStackSizes(std::vector<std::pair<const char*, long> >&   theSizes) const
+{
+    m_stylesheetExecutionContext->verifStackSizes(theSizes);
+}
+#endif
+
+
+
 XalanTransformer::EnsureReset::~EnsureReset()
 {
     m_transformer.m_stylesheetExecutionContext->reset();
